@@ -180,6 +180,24 @@ def load_known_findings(pid):
     return known
 
 
+def changed_sources():
+    """files under /repo/src that differ from the tree the model was written against
+    (baseline/sources.json).  A difference is not a violation: it makes the quick tier search
+    harder (the thorough generators run as well), because the correspondence now has to be
+    re-established on changed code."""
+    import hashlib
+    try:
+        base = json.load(open(os.path.join(VERIF, "baseline", "sources.json")))["files"]
+    except Exception:
+        return ["<no baseline>"]
+    cur = {}
+    for root, _, files in os.walk("/repo/src"):
+        for fn in files:
+            pth = os.path.join(root, fn)
+            cur[os.path.relpath(pth, "/repo")] = hashlib.sha256(open(pth, "rb").read()).hexdigest()
+    return sorted(f for f in set(base) | set(cur) if base.get(f) != cur.get(f))
+
+
 def check_property(pid, tier, seed):
     t0 = time.time()
     cfg = props.PROPS[pid]
@@ -232,14 +250,34 @@ def check_property(pid, tier, seed):
                 if fn.startswith(pid + "-") and fn.endswith(".ops"):
                     scripts.append((os.path.basename(d) + "/" + fn, open(os.path.join(d, fn)).read()))
     n_corpus = len(scripts)
-    scripts += cfg["gen"](rng, tier)
+    generated = cfg["gen"](rng, tier)
+    changed = changed_sources()
+    if changed and tier == "quick":
+        log("sources differ from the modelled tree (" + ", ".join(changed[:4]) + "): searching harder")
+        seen = {sc for _, sc in generated}
+        for k in (1, 2):
+            for n, sc in cfg["gen"](random.Random(seed + 100 * k), "thorough"):
+                if sc not in seen:
+                    seen.add(sc)
+                    generated.append((n + f"+e{k}", sc))
+    # the random streams stay out of the region of the recorded known finding (TailClean)
+    # scripts inside the region of the recorded known finding marker-tail (TailClean fails) are
+    # judged op by op: where the model meets the specification the property is judged as usual,
+    # where the model itself shows the recorded defect only the tie model-code is judged
+    region = {sc for n, sc in generated if not gen.script_tail_clean(sc)}
+    scripts += generated
+    if region:
+        log(f"{len(region)} generated script(s) lie inside the region of the known finding marker-tail")
+
+    def pj(sc):
+        return dict(proj, region=True) if sc in region else proj
     known = load_known_findings(pid)
     known_scripts = {k["replay"]: k for k in known if "replay" in k}
     timeout = cfg.get("timeout", 120 if tier == "quick" else 600)
     audit = cfg.get("audit", False)
     results = []
     with cf.ProcessPoolExecutor(max_workers=min(16, os.cpu_count() or 4)) as ex:
-        for res in ex.map(_judge_one, [(n, s, proj, timeout, audit) for n, s in scripts]):
+        for res in ex.map(_judge_one, [(n, s, pj(s), timeout, audit) for n, s in scripts]):
             results.append(res)
     fails = [(n, s, r) for n, s, r in results if r.kind != "pass"]
     tags_hist = {}
@@ -274,8 +312,8 @@ def check_property(pid, tier, seed):
             if r.code in ("hang", "abort") or len(judge.script_ops(s)) > 150 or "count=" in s and any(int(x) > 800 for x in re.findall(r"count=(\d+)", s)):
                 small, r2 = s, r
             else:
-                small = judge.shrink(s, proj, "prop", timeout=timeout, budget=25 if tier == "quick" else 80)
-                r2 = judge.judge(small, proj, timeout=timeout, audit=audit)
+                small = judge.shrink(s, pj(s), "prop", timeout=timeout, budget=25 if tier == "quick" else 80)
+                r2 = judge.judge(small, pj(s), timeout=timeout, audit=audit)
                 if r2.kind != "prop":
                     small, r2 = s, r
             path = write_replay(pid, n, small, r2, seed)
@@ -290,11 +328,12 @@ def check_property(pid, tier, seed):
         found = False
         rng2 = random.Random(seed + 1)
         extra = cfg["gen"](rng2, "thorough")
+        region |= {sc for n, sc in extra if not gen.script_tail_clean(sc)}
         with cf.ProcessPoolExecutor(max_workers=min(16, os.cpu_count() or 4)) as ex:
-            for n, s, r in ex.map(_judge_one, [(n, s, proj, timeout, audit) for n, s in extra]):
+            for n, s, r in ex.map(_judge_one, [(n, s, pj(s), timeout, audit) for n, s in extra]):
                 if r.kind == "prop" and not found:
-                    small = judge.shrink(s, proj, "prop", timeout=timeout, budget=60) if len(judge.script_ops(s)) <= 400 else s
-                    r2 = judge.judge(small, proj, timeout=timeout, audit=audit)
+                    small = judge.shrink(s, pj(s), "prop", timeout=timeout, budget=60) if len(judge.script_ops(s)) <= 400 else s
+                    r2 = judge.judge(small, pj(s), timeout=timeout, audit=audit)
                     if r2.kind != "prop":
                         small, r2 = s, r
                     path = write_replay(pid, n, small, r2, seed + 1)
